@@ -961,8 +961,10 @@ def root_tag(text):
     m = mask_texts(text)
     if re.search(r'%[ \t\n]*["(\d.A-Za-z$\']', m):
         return 'grammar.percent_as_binary_operator'
-    if re.search(r"'[^']*'!\$?[A-Z]+\$?\d+(?![\d:]).*'[^']*'!\$?[A-Z]+\$?\d*:", m, re.S):
-        return 'lexer.quoted_sheet_prefix_span'
+    for pre in re.finditer(r"'[^']*'!", text):
+        if not re.match(r"\$?[A-Z]+\$?\d*:\$?[A-Z]+", text[pre.end():]) and \
+                re.search(r"'[^']*'!\$?[A-Z]+\$?\d*:", text[pre.end():]):
+            return 'lexer.quoted_sheet_prefix_span'
     if re.search(r"(?<![A-Za-z0-9_$.'])!", m):
         return 'lexer.empty_sheet_prefix'
     for w in re.findall(r'(?<![A-Za-z0-9_.])\$?([A-Z]+)\$?\d+', m):
